@@ -45,6 +45,7 @@ def layouts(draw, max_frames=10):
                 scalars=draw(st.sampled_from([[], ["temp"], ["temp", "salt"]])),
                 storage=draw(st.sampled_from(["f8", "f8", "f4"])), seed=draw(st.integers(0, 10**6)),
                 # optionally every file has its own storage (float, or packed with its own scale_factor / add_offset)
+                late=draw(st.sampled_from([0, 0, 0, 1, 2, 3, 5])),
                 storages=draw(st.one_of(st.none(), st.lists(st.sampled_from(["f8", "f4", "p1", "p2", "p3"]),
                                                             min_size=2, max_size=4))),
                 mask=draw(st.sampled_from(["none", "islands"])), h=draw(st.sampled_from(["flat", "noise"])))
@@ -152,7 +153,13 @@ def oracle(case) -> core.CaseResult:
             res.fail("setup_raises", f"{e!r}\n{traceback.format_exc()[-600:]}")
             return res
         state, timer, force = modules["state"], modules["time"], modules["forcing"]
-        state.append(X=X, Y=Y, Z=Z)
+        # the probes may enter some steps into the run (like a first release after the start): the forcing must
+        # keep up with the clock while the state is empty
+        late = min(int(case.get("late", 0)), case["nsteps"])
+        if late == 0:
+            state.append(X=X, Y=Y, Z=Z)
+        else:
+            res.cls("state_empty_at_first")
         s0 = case["s0"]
         total = int(c[-1])
         between = handover = False
@@ -162,12 +169,16 @@ def oracle(case) -> core.CaseResult:
         for n in range(case["nsteps"] + 1):
             try:
                 timer.update()
+                if late and n == late:
+                    state.append(X=X, Y=Y, Z=Z)  # Model.update order: clock, release, forcing
                 force.update()
             except BaseException as e:  # noqa: BLE001
                 import traceback
 
                 res.fail("update_raises", f"step {n}: {e!r}\n{traceback.format_exc()[-500:]}")
                 break
+            if n < late:
+                continue
             p = s0 + n
             a = int(np.searchsorted(c, p, side="right") - 1)
             if a >= nfr - 1:
